@@ -18,6 +18,7 @@ package c03
 // Every colliding pair the pure search found is replayed here as (M, D).
 
 import (
+	"crypto/sha256"
 	"encoding/hex"
 	"fmt"
 	"math/big"
@@ -40,7 +41,9 @@ import (
 
 // the chains whose keeper is driven: an EVM chain, a second EVM chain (another module name, same address class) and tron
 // (base58 addresses)
-var keeperChains = []string{"eth", "bsc", "tron"}
+// (base58 addresses) with the larger scenario sets, then the other five EVM-class keepers (same code, their own module name,
+// store and oracle set) with the fixed scenarios and a small generated set
+var keeperChains = []string{"eth", "bsc", "tron", "polygon", "avalanche", "arbitrum", "optimism", "layer2"}
 
 func keeperOf(s *hx.Suite, chain string) crosschainkeeper.Keeper {
 	switch chain {
@@ -50,6 +53,14 @@ func keeperOf(s *hx.Suite, chain string) crosschainkeeper.Keeper {
 		return s.App.TronKeeper
 	case "polygon":
 		return s.App.PolygonKeeper
+	case "avalanche":
+		return s.App.AvalancheKeeper
+	case "arbitrum":
+		return s.App.ArbitrumKeeper
+	case "optimism":
+		return s.App.OptimismKeeper
+	case "layer2":
+		return s.App.Layer2Keeper
 	}
 	return s.App.EthKeeper
 }
@@ -76,6 +87,32 @@ type keeperEnv struct {
 	exts     []string
 	powers   []int64
 	index    map[string]int // oracle address -> index
+	inflight *inflight      // the next replay starts with this attestation already in the store
+}
+
+// inflight: an attestation that was open when the claim-hash formats changed (b7515bc): it sits under the hash the EARLIER
+// release computed for the recorded claim, with the votes cast before the upgrade
+type inflight struct {
+	claim  claim
+	voters []int
+}
+
+// legacyHash: ClaimHash as the release before b7515bc computed it (git show 6774338:x/crosschain/types/msgs.go); the three
+// formats that changed.  Compared with the model's legacy paths per use (`lhash` lines).
+func legacyHash(c claim) []byte {
+	path := ""
+	switch m := c.(type) {
+	case *ct.MsgBridgeCallClaim:
+		path = fmt.Sprintf("%d/%d/%s/%s/%s/%s/%v/%v/%s", m.BlockHeight, m.EventNonce, m.Sender, m.Refund, m.To, m.TokenContracts, m.Amounts, m.Data, m.Value.String())
+	case *ct.MsgBridgeCallResultClaim:
+		path = fmt.Sprintf("%d/%d/%d/%t/%s", m.BlockHeight, m.EventNonce, m.Nonce, m.Success, m.Cause)
+	case *ct.MsgBridgeTokenClaim:
+		path = fmt.Sprintf("%d/%d%s/%s/%s/%d/%s/", m.BlockHeight, m.EventNonce, m.TokenContract, m.Name, m.Symbol, m.Decimals, m.ChannelIbc)
+	default:
+		return c.ClaimHash()
+	}
+	h := sha256.Sum256([]byte(path))
+	return h[:]
 }
 
 var powerProfiles = [][]int64{{10, 10, 10, 10}, {40, 30, 20, 10}, {34, 33, 32, 10}, {66, 20, 10, 10}, {25, 25, 25, 25, 25}, {50, 16, 16, 16, 10}}
@@ -572,6 +609,37 @@ func (e *keeperEnv) replay(k *kind, what string, claims []claim, order []int, sh
 	replay := []string{fmt.Sprintf("# real keeper (%s), %d oracles of power %v, last observed nonce %d; votes in order:", e.chain, len(e.oracles), e.powers, nonce-1)}
 	votes := map[int]claim{}
 	observedBefore := map[string]bool{}
+	if pf := e.inflight; pf != nil && len(pf.voters) > 0 {
+		// the state an upgraded chain can be in: the attestation of this event was opened by the earlier release
+		m := k.clone(pf.claim)
+		setBridger(m, e.bridgers[pf.voters[0]].String())
+		anyM, _ := codectypes.NewAnyWithValue(m)
+		// … in an earlier block (Attestation.Height is the fxcore height at which the first vote arrived)
+		opened := ctx.BlockHeight() - 1 - int64(e.r.rng.Intn(3))
+		if opened < 1 {
+			opened = 1
+		}
+		att := &ct.Attestation{Observed: false, Height: uint64(opened), Claim: anyM}
+		var vs []string
+		for _, i := range pf.voters {
+			att.Votes = append(att.Votes, e.oracles[i].String())
+			e.k.SetLastEventNonceByOracle(ctx, e.oracles[i], nonce)
+			votes[i] = m
+			vs = append(vs, fmt.Sprint(i))
+		}
+		lh := legacyHash(m)
+		e.k.SetAttestation(ctx, nonce, lh, att)
+		out.Count("keeper:inflight:" + k.tag + ":" + map[bool]string{true: "legacy-hash-differs", false: "hash-unchanged"}[hex.EncodeToString(lh) != hashOf(m)])
+		out.Emit(fmt.Sprintf("lhash %s %s", k.line(m), ckBit(k, m)), hex.EncodeToString(lh))
+		line := fmt.Sprintf("iatt %d %s %s %s %s", nonce, hex.EncodeToString(lh), strings.Join(vs, "."), k.line(m), ckBit(k, m))
+		out.Emit(line, "ok atts="+e.attTable(ctx, nonce))
+		replay = append(replay, fmt.Sprintf("# before the upgrade (claim hash of the release before b7515bc = %x) oracles %v voted for: %+v", lh, pf.voters, m), line)
+		for _, i := range pf.voters {
+			l := fmt.Sprintf("olast %d %d", i, nonce)
+			out.Emit(l, "ok")
+			replay = append(replay, l)
+		}
+	}
 	for pos, i := range order {
 		if sh := shifts[pos]; len(sh) > 0 {
 			e.applyShifts(ctx, sh, &replay)
@@ -592,6 +660,7 @@ func (e *keeperEnv) replay(k *kind, what string, claims []claim, order []int, sh
 				}
 			}
 		}
+		prevVote, hadVote := votes[i]
 		votes[i] = c
 		hp, herr := e.handlerPanics(ctx, c)
 		e.outcomeMonitor(ctx, k, what, c, i, replay)
@@ -617,12 +686,35 @@ func (e *keeperEnv) replay(k *kind, what string, claims []claim, order []int, sh
 			kindR = "err:other"
 		}
 		out.Count("keeper:vote:" + kindR)
+		if kindR != "ok" {
+			// a rejected vote is no vote: what the oracle voted for is what it submitted successfully (if anything)
+			if hadVote {
+				votes[i] = prevVote
+			} else {
+				delete(votes, i)
+			}
+		}
 		lastObs := e.k.GetLastObservedEventNonce(ctx)
 		execHash := "-"
 		// did this vote make an attestation observed?
 		var att *ct.Attestation
 		if kindR == "ok" {
 			att = e.k.GetAttestation(ctx, c.GetEventNonce(), c.ClaimHash())
+		}
+		// (6) a vote is filed only with votes for the same ClaimHash: the attestation that now holds this vote records a claim
+		// with the hash of the submitted claim, and so did every oracle whose vote it holds
+		if att != nil {
+			if rec, err := ct.UnpackAttestationClaim(e.s.App.AppCodec(), att); err == nil && hashOf(rec) != hashOf(c) {
+				rp := append(append([]string{}, replay...), fmt.Sprintf("# oracle %d's vote was filed in an attestation recording %+v", i, rec))
+				r.violate(fmt.Sprintf("real keeper: a vote is filed in an attestation that records a claim with another ClaimHash in %s: %s", k.name, what), rp)
+			}
+			for _, v := range att.Votes {
+				if vi, ok := e.index[v]; ok && votes[vi] != nil && hashOf(votes[vi]) != hashOf(c) {
+					rp := append(append([]string{}, replay...), fmt.Sprintf("# attestation %x now holds the votes of oracles %v; oracle %d voted for %+v", c.ClaimHash(), att.Votes, vi, votes[vi]))
+					r.violate(fmt.Sprintf("real keeper: votes for claims with different ClaimHash are filed in one attestation in %s: %s", k.name, what), rp)
+					break
+				}
+			}
 		}
 		key := fmt.Sprintf("%d/%x", c.GetEventNonce(), c.ClaimHash())
 		if att != nil && att.Observed && !observedBefore[key] {
@@ -678,6 +770,32 @@ func (e *keeperEnv) replay(k *kind, what string, claims []claim, order []int, sh
 		}
 		return false
 	})
+	// (7) every attestation of the nonce sits under the key of the claim it RECORDS — which is where ExportGenesis → InitGenesis
+	// (SetAttestation(claim.GetEventNonce(), claim.ClaimHash(), att) on the recorded claim) would file it again; the one
+	// exception is an attestation this scenario put there under the earlier release's hash, which must still hold exactly the
+	// votes it had
+	{
+		prefix := ct.GetAttestationKey(nonce, nil)
+		for _, kv := range hx.RawPrefix(ctx, e.s.App.GetKey(e.chain), prefix) {
+			var att ct.Attestation
+			e.s.App.AppCodec().MustUnmarshal(kv[1], &att)
+			rec, err := ct.UnpackAttestationClaim(e.s.App.AppCodec(), &att)
+			if err != nil {
+				continue
+			}
+			keyHash := hex.EncodeToString(kv[0][len(prefix):])
+			if keyHash == hashOf(rec) && rec.GetEventNonce() == nonce {
+				out.Count("keeper:filed-under-recorded-claim")
+				continue
+			}
+			if pf := e.inflight; pf != nil && keyHash == hex.EncodeToString(legacyHash(rec)) && !att.Observed && len(att.Votes) == len(pf.voters) {
+				out.Count("keeper:stale-attestation-untouched")
+				continue
+			}
+			rp := append(append([]string{}, replay...), fmt.Sprintf("# attestation under hash %s records %+v (ClaimHash %s), votes %v, observed %v", keyHash, rec, hashOf(rec), att.Votes, att.Observed))
+			r.violate(fmt.Sprintf("real keeper: an attestation is not filed under the hash of the claim it records in %s: %s", k.name, what), rp)
+		}
+	}
 	// deferred execution: ExecuteClaim runs the stored copy (whether the real handler succeeds is an input of the model)
 	ran := 0
 	for round := 0; round < 2; round++ {
@@ -753,6 +871,9 @@ func keeperRun(t *testing.T, r *run, g *gen, ks map[string]*kind) {
 	for i, chain := range keeperChains {
 		keeperRunOn(t, r, g, ks, chain, i == 0, i)
 	}
+	if len(keeperChains) != 8 {
+		r.out.Violate("harness: not every crosschain keeper is driven")
+	}
 }
 
 func keeperRunOn(t *testing.T, r *run, g *gen, ks map[string]*kind, keeperChain string, full bool, idx int) {
@@ -765,9 +886,12 @@ func keeperRunOn(t *testing.T, r *run, g *gen, ks map[string]*kind, keeperChain 
 	r.out.Stats.Extra["keeper_power_profile:"+keeperChain] = fmt.Sprint(profile)
 	r.out.Count("keeper:chain:" + keeperChain)
 	kg := &gen{rng: g.rng, pool: e.exts}
-	e.keyLines(g)
+	light := idx >= 3 // the five further EVM-class keepers
+	if !light {
+		e.keyLines(g)
+		e.viewDepLines(kg, ks)
+	}
 	e.bridgeTokenLines(kg, ks["bt"])
-	e.viewDepLines(kg, ks)
 
 	// disagree: M from everyone except the deviators, who vote D
 	disagree := func(k *kind, what string, m, d claim, deviators []int, order []int) {
@@ -808,9 +932,45 @@ func keeperRunOn(t *testing.T, r *run, g *gen, ks map[string]*kind, keeperChain 
 		r.out.Count("keeper:scenario:power-shift")
 		e.replay(k, what+", after a power shift", claims, order, map[int][]shift{early: sh})
 	}
+	// inflightSc: some oracles voted M before the claim-hash formats changed (the attestation sits under M's LEGACY hash);
+	// after the upgrade the others vote D (one of them perhaps M); the early voters cannot vote again
+	inflightSc := func(k *kind, what string, m, d claim) {
+		order := orders(g, n)
+		early := 1 + g.rng.Intn(n-2)
+		claims := make([]claim, n)
+		for pos, i := range order {
+			switch {
+			case pos < early:
+				claims[i] = nil
+				if g.rng.Intn(4) == 0 {
+					claims[i] = d // tries to vote again: rejected, its nonce is no longer contiguous
+				}
+			default:
+				claims[i] = d
+				if pos > early && g.rng.Intn(4) == 0 {
+					claims[i] = m
+				}
+			}
+		}
+		r.out.Count("keeper:scenario:inflight-at-upgrade")
+		e.inflight = &inflight{claim: m, voters: append([]int{}, order[:early]...)}
+		g.rng.Shuffle(len(order), func(i, j int) { order[i], order[j] = order[j], order[i] })
+		e.replay(k, what+", with an attestation open since before the claim-hash change", claims, order, nil)
+		e.inflight = nil
+	}
 	allPositions := func(k *kind, what string, m, d claim) {
 		shifted(k, what, m, d)
+		inflightSc(k, what, m, d)
+		if light {
+			// one deviator at a random position, and the deviating claim as the majority's
+			order := orders(g, n)
+			disagree(k, what, m, d, []int{order[g.rng.Intn(n)]}, order)
+			order = orders(g, n)
+			disagree(k, what, d, m, []int{order[n-2]}, order)
+			return
+		}
 		shifted(k, what, d, m)
+		inflightSc(k, what, d, m)
 		// the single deviator at every position of the vote order, both ways round; then two deviators
 		for pos := 0; pos < n; pos++ {
 			order := orders(g, n)
@@ -889,6 +1049,9 @@ func keeperRunOn(t *testing.T, r *run, g *gen, ks map[string]*kind, keeperChain 
 	if !full {
 		nGen = hx.N(6, 60)
 	}
+	if light {
+		nGen = hx.N(3, 30)
+	}
 	for _, tag := range []string{"stf", "bc", "bcr", "ste", "bt", "osu"} {
 		k := ks[tag]
 		for i := 0; i < nGen; i++ {
@@ -931,7 +1094,9 @@ func keeperRunOn(t *testing.T, r *run, g *gen, ks map[string]*kind, keeperChain 
 				// an oracle tries to vote a second time (rejected: its nonce is no longer contiguous)
 				order = append(order[:2:2], append([]int{order[0]}, order[2:]...)...)
 			}
-			switch g.rng.Intn(4) {
+			switch g.rng.Intn(5) {
+			case 4:
+				inflightSc(k, what, base, d)
 			case 0:
 				shifted(k, what, base, d)
 			case 1:
